@@ -475,26 +475,28 @@ func (lc *litCtx) lit(t *Term, typ types.Type, depth int) (string, error) {
 // globalFor: if the model makes pointer t equal to a package-level pointer variable, use it.
 func (lc *litCtx) globalFor(t *Term, typ types.Type) string {
 	x := lc.m.x
-	for name := range lc.st.heap {
-		if !strings.HasPrefix(name, "G_") {
+	for name, g := range x.globalsSeen {
+		if !types.Identical(g.Type().(*types.Pointer).Elem(), typ) {
 			continue
 		}
-		g := lc.st.heap[name]
-		if g.sort != SInt {
+		gt, ok := lc.st.heap[name]
+		if !ok || gt.sort != SInt {
 			continue
 		}
-		v1, err1 := lc.m.value(g)
+		v1, err1 := lc.m.value(gt)
 		v2, err2 := lc.m.value(t)
 		if err1 == nil && err2 == nil && v1.String() == v2.String() {
-			// name is G_pkg_Name
-			parts := strings.SplitN(strings.TrimSuffix(name, "!0"), "_", 3)
-			if len(parts) == 3 {
-				_ = x
-				return parts[2]
-			}
+			return lc.qual(g.Pkg.Pkg) + dotIf(lc.qual(g.Pkg.Pkg)) + g.Name()
 		}
 	}
 	return ""
+}
+
+func dotIf(s string) string {
+	if s == "" {
+		return ""
+	}
+	return "."
 }
 
 // ---- replay
